@@ -193,9 +193,17 @@ def run(tier, seed):
                 fails += 1
                 rep.violation("adapters:apply", {"positional": na, "keyword": nk, "why": "apply returned %r" % (res,)})
                 continue
+            # the arguments are awaited like a call evaluates them: positional ones left to right, then the keywords in
+            # the order given, then the function is called once
+            order = [e[:2] for e in log]
+            want = [("awaitarg", i) for i in range(na)] + [("awaitkw", i) for i in range(nk)] + [("call", list(vals[:na]))]
+            if order != want:
+                fails += 1
+                rep.violation("adapters:apply", {"positional": na, "keyword": nk, "why": "order of awaiting the arguments and calling: %r, expected %r" % (order, want)})
+                continue
             texts.append("CApply [%s] [%s] [%s]" % ("; ".join(coq_val(x) for x in vals[:na]), "; ".join(coq_val(x) for x in vals[na:]), "; ".join(coq_ev(e) for e in log)))
     # ---- sync: same result / exception; coroutine functions returned unchanged
-    class Boom(Exception):
+    class Boom(TypeError):       # (a TypeError, which an adapter might be tempted to handle for its own purposes)
         pass
 
     async def coro_fn(x):
